@@ -111,7 +111,7 @@ def _modifies_paths(con: Contract) -> set:
 
 
 def verify_contract(reg: Registry, con: Contract, timeout_ms: int = 10000, second: bool = True,
-                    max_paths: int = MAX_PATHS) -> UnitResult:
+                    max_paths: int = MAX_PATHS, budget_s: float = 600.0) -> UnitResult:
     res = UnitResult(con.target)
     t_start = time.time()
     is_lemma = con.target.startswith("lemma:")
@@ -152,13 +152,18 @@ def verify_contract(reg: Registry, con: Contract, timeout_ms: int = 10000, secon
         # discharge the obligations of this path
         caps = [a[2] for a in p.atoms.values() if a[0] in ("bytes", "intseq") and z3.is_expr(a[2]) and not z3.is_int_value(a[2])]
         for ob in p.obls:
-            r = check_obligation(ob.pc, ob.goal, timeout_ms, second=second, cap_hint=caps)
+            if time.time() - t_start > budget_s:
+                o = res.ob(ob.name)
+                o.add(SolveResult("unknown", "none", 0.0, reason="unit time budget exhausted"))
+                continue
+            r = check_obligation(ob.pc, ob.goal, timeout_ms, second=second, cap_hint=caps,
+                                 on_model=lambda m, p=p, ob=ob: _counterexample(p, m, ob))
             o = res.ob(ob.name)
             o.add(r)
             o.replayable = o.replayable and ob.replayable
             res.solver_secs += r.secs
             if r.status == "sat" and o.cex is None:
-                o.cex = _counterexample(p, r.model, ob)
+                o.cex = r.model
         # vacuity canary: the first completed path must admit a model (assumptions are consistent)
         if not canary_seen and getattr(p, "entry_bound", None) is not None:
             canary_seen = True
@@ -173,8 +178,9 @@ def _counterexample(p: Path, m: Any, ob: Obligation) -> dict:
     bound = getattr(p, "entry_bound", None)
     if bound is not None:
         try:
-            conc = {k: concretize(m, v) for k, v in bound.items()}
-            out["inputs"] = conc
+            from .replay import describe
+
+            out["inputs"] = {k: describe(concretize(m, v)) for k, v in bound.items()}
         except Exception as e:  # pylint: disable=broad-except
             out["inputs_error"] = f"{type(e).__name__}: {e}"
     return out
